@@ -12,6 +12,7 @@
 import JRV.Model.JsonClassGate
 import JRV.Lemmas.JsonClass
 import JRV.Lemmas.Server
+import JRV.Lemmas.JsonString
 
 set_option linter.unusedSimpArgs false
 set_option linter.unusedVariables false
@@ -626,5 +627,66 @@ example : Nested exW [] (.dict [(.str "__jsonclass__", .list [.str "os.system x"
   exact Nested.inList (W := exW) (cl := [])
     [.dict [(.str "__jsonclass__", .list [.str "pkg.Point", .list []]), (.str "x", .int 5)]] []
     [.obj "P" [("x", .int 5)]] (by decide +kernel) h1
+
+/- ---------- the text a payload travels as ---------- -/
+
+section text
+open JRV.JsonString
+
+/-- **What is done with a text depends on the value it denotes only.**  Two non-empty texts the JSON backend decodes
+    to the same value — the same payload with member names and strings spelt with other escapes, other white space,
+    repeated member names of which the same one is kept — get the same outcome from `jsonrpc.loads`: same result,
+    same exception.  For every backend, every configuration, every translator. -/
+theorem C08_loads_spelling_independent (B : Backend) (cfg : Config) (unconv : PyVal → PyM PyVal) (t1 t2 : String)
+    (h1 : t1 ≠ "") (h2 : t2 ≠ "") (h : B.parse t1 = B.parse t2) :
+    Payload.loads B cfg unconv t1 = Payload.loads B cfg unconv t2 := by
+  unfold Payload.loads
+  simp [h1, h2, h]
+
+/-- … in particular: whatever the translator rejects is rejected however the text spells it — no spelling of a
+    payload gets past the translator when `use_jsonclass` is on. -/
+theorem C08_loads_rejects_whatever_the_spelling (B : Backend) (cfg : Config) (unconv : PyVal → PyM PyVal) (text : String)
+    (v : PyVal) (e : PyErr) (hon : cfg.useJsonclass = true) (ht : text ≠ "") (hp : B.parse text = some v) (hv : v ≠ .none)
+    (hr : unconv v = .error e) : Payload.loads B cfg unconv text = .error e := by
+  unfold Payload.loads
+  simp only [beq_iff_eq, ht, if_false, hp]
+  cases v <;> simp_all [Payload.load]
+
+/-- **Every spelling of a string denotes that string** (RFC 8259 section 7): each character written raw (when it may
+    be), with its short escape (when it has one) or as `\uXXXX` — a surrogate pair for a character beyond U+FFFF — with
+    any letter case of the hexadecimal digits. -/
+theorem C08_text_spelling_denotes (cs : List (Char × How)) (h : allAllowed cs = true) :
+    decode (spell cs) = some (cs.map (·.1)) := decode_spell cs h
+
+/-- … so every spelling of the member name is the member name: a decoder that honours the RFC hands the translator a
+    `"__jsonclass__"` member whichever of its `3^13` (and more, counting letter cases) spellings the peer chose. -/
+theorem C08_text_jsonclass_key_spellings (hows : List How) (hl : hows.length = jcKey.toList.length)
+    (ha : allAllowed (jcKey.toList.zip hows) = true) :
+    decode (spell (jcKey.toList.zip hows)) = some jcKey.toList := by
+  rw [decode_spell _ ha]
+  congr 1
+  exact List.map_fst_zip (by omega)
+
+/-- A test on the RAW text is not a test on the payload: this body spells the member name with two escaped underscores;
+    it denotes `__jsonclass__` and does not contain it. -/
+theorem C08_text_escaped_key_not_in_text :
+    decode "__jsonclass\\u005f\\u005f".toList = some jcKey.toList ∧
+    isInfix jcKey.toList "__jsonclass\\u005f\\u005f".toList = false := by
+  decide +kernel
+
+/-- Non-vacuity of the spelling theorem: `a/é😀` + newline, written `a`, `\/`, `\u00E9`, a surrogate pair with mixed letter
+    cases and `\n`. -/
+example : spell [('a', .raw), ('/', .short), ('é', .u (false, false, true, false) (false, false, false, false)),
+                 ('😀', .u (true, false, false, true) (false, true, false, false)), ('\n', .short)]
+    = "a\\/\\u00E9\\uD83D\\udE00\\n".toList := by decide +kernel
+example : allAllowed [('a', .raw), ('/', .short), ('é', .u (false, false, true, false) (false, false, false, false)),
+                      ('😀', .u (true, false, false, true) (false, true, false, false)), ('\n', .short)] = true := by decide +kernel
+example : decode "a\\/\\u00E9\\uD83D\\udE00\\n".toList = some "a/é😀\n".toList := by decide +kernel
+/-- What the decoder refuses: a raw control character, a raw quotation mark, an unknown escape, a short `\u` escape; and an
+    unpaired surrogate escape is declined (outside `Char`). -/
+example : decode ['a', '\n'] = Option.none ∧ decode ['"'] = Option.none ∧ decode "\\x41".toList = Option.none ∧ decode "\\u00e".toList = Option.none ∧
+    decode "\\ud83d".toList = Option.none ∧ decode "\\ude00\\ud83d".toList = Option.none := by decide +kernel
+
+end text
 
 end JRV.Props
